@@ -48,7 +48,7 @@ CHECKS = {
     'C20': dict(
         level='exploration',
         units=[U('^TestC20$', (8, 8000, 40), (16, 60000, 80)), U('^TestC20_LargeScale$', (2, 150), (4, 5000))],
-        essential_labels=['add-after-query', 'merge', 'duplicate-heavy', 'q-on-integer-rank', 'large-scale', 'batch:below-min', 'q:nan'],
+        essential_labels=['add-after-query', 'merge', 'duplicate-heavy', 'q-on-integer-rank', 'large-scale', 'batch:below-min', 'q:nan', 'size:exact-power-of-two'],
         assumptions=COMMON_ASSUMPTIONS + ["rho=q*(n-1) is accepted evaluated exactly or in binary64 (they differ only within half an ulp of an integer)", "Min/Max of an empty dataset are outside the statement and not exercised"],
     ),
     'C04': dict(
@@ -61,7 +61,7 @@ CHECKS = {
             U('^TestC04_PaginatedScenarios$', (3, 8000), (4, 200000)),
             U('^TestC04_WideWeights$', (2, 8000), (3, 200000)),
         ],
-        essential_labels=['kind:dense', 'kind:sparse', 'kind:paginated', 'event:array-shift', 'event:page-created', 'event:buffer-compacted', 'op:merge', 'op:encdec', 'op:proto', 'op:reweight', 'op:copy', 'op:clear', 'large-scale', 'shape:round-robin', 'paginated-method-mergewithproto', 'clear-refill-same-size', 'mutate-many:non-add', 'large-scale-merge-phase', 'paginated-scenario', 'wide-weights', 'weight>=2^53', 'weights-underflowed-to-zero'],
+        essential_labels=['kind:dense', 'kind:sparse', 'kind:paginated', 'event:array-shift', 'event:page-created', 'event:buffer-compacted', 'op:merge', 'op:encdec', 'op:proto', 'op:reweight', 'op:copy', 'op:clear', 'large-scale', 'shape:round-robin', 'paginated-method-mergewithproto', 'clear-refill-same-size', 'mutate-many:non-add', 'large-scale-merge-phase', 'first-read-after-mutation', 'paginated-scenario', 'wide-weights', 'weight>=2^53', 'weights-underflowed-to-zero'],
         assumptions=COMMON_ASSUMPTIONS + ["weights are dyadic and bounded so that every float64 partial sum is exact (DESIGN §1.1); index spans are capped per store kind by memory"],
     ),
     'C05': dict(
